@@ -256,7 +256,7 @@ def check(pid, tier, seed):
             core.build_cdriver("asan")
         cx = suites.Ctx(GEN, seed, tier)
         seeds = [seed] if tier == "quick" else [seed, seed + 1000003, seed + 2000003]
-        for sname in PROPS[pid]["suites"]:
+        for sname in PROPS[pid]["suites"] + (["aimed"] if cx.extra else []):
             if tier == "quick":
                 run_suite(o, cx, sname)
             else:
